@@ -45,34 +45,34 @@ def claimD (δ : VName → Nat) (e : Expr) : Prop :=
   ∀ r, e.ann.deg = some r → degE δ e ≤ r.2 ∧ r.2 ≤ 3
 
 mutual
-def SoundD (δ : VName → Nat) : Expr → Prop
-  | .infix a op l r => claimD δ (.infix a op l r) ∧ SoundD δ l ∧ SoundD δ r
-  | .prefix a op e => claimD δ (.prefix a op e) ∧ SoundD δ e
-  | .switch a c t f => claimD δ (.switch a c t f) ∧ SoundD δ c ∧ SoundD δ t ∧ SoundD δ f
+def SoundD (δ : VName → Nat) (F : VName → Prop) : Expr → Prop
+  | .infix a op l r => claimD δ (.infix a op l r) ∧ SoundD δ F l ∧ SoundD δ F r
+  | .prefix a op e => claimD δ (.prefix a op e) ∧ SoundD δ F e
+  | .switch a c t f => claimD δ (.switch a c t f) ∧ SoundD δ F c ∧ SoundD δ F t ∧ SoundD δ F f
   | .var a v => claimD δ (.var a v)
   | .num a n => claimD δ (.num a n)
-  | .call a n args => claimD δ (.call a n args) ∧ SoundDs δ args
-  | .arr a vals => claimD δ (.arr a vals) ∧ SoundDs δ vals
-  | .acc a v access => claimD δ (.acc a v access) ∧ SoundDa δ access
-  | .upd a v access rhe => claimD δ (.upd a v access rhe) ∧ SoundDa δ access ∧ SoundD δ rhe
+  | .call a n args => claimD δ (.call a n args) ∧ SoundDs δ F args
+  | .arr a vals => claimD δ (.arr a vals) ∧ SoundDs δ F vals
+  | .acc a v access => claimD δ (.acc a v access) ∧ SoundDa δ F access
+  | .upd a v access rhe => claimD δ (.upd a v access rhe) ∧ SoundDa δ F access ∧ SoundD δ F rhe ∧ F v
   | .phi a args => claimD δ (.phi a args)
-def SoundDs (δ : VName → Nat) : Exprs → Prop
+def SoundDs (δ : VName → Nat) (F : VName → Prop) : Exprs → Prop
   | .nil => True
-  | .cons e r => SoundD δ e ∧ SoundDs δ r
-def SoundDa (δ : VName → Nat) : Accs → Prop
+  | .cons e r => SoundD δ F e ∧ SoundDs δ F r
+def SoundDa (δ : VName → Nat) (F : VName → Prop) : Accs → Prop
   | .nil => True
-  | .cons (.idx e) r => SoundD δ e ∧ SoundDa δ r
-  | .cons (.cmp _) r => SoundDa δ r
+  | .cons (.idx e) r => SoundD δ F e ∧ SoundDa δ F r
+  | .cons (.cmp _) r => SoundDa δ F r
 end
 
 /-- the abstract environment bounds the degree of every variable it knows; a local array that has
     neither a degree nor an assignment so far is still all zeros -/
-structure AgreeD (δ : VName → Nat) (env : DegEnv) : Prop where
+structure AgreeD (δ : VName → Nat) (env : DegEnv) (F : VName → Prop) : Prop where
   bound : ∀ v r, env.degree v = some r → δ v ≤ r.2 ∧ r.2 ≤ 3
-  fresh : ∀ v, env.degree v = none → env.isAssigned v = false → δ v = 0
+  fresh : ∀ v, F v → env.degree v = none → env.isAssigned v = false → δ v = 0
   le3 : ∀ v, δ v ≤ 3
 
-theorem soundD_top (δ : VName → Nat) : ∀ e, SoundD δ e → claimD δ e
+theorem soundD_top (δ : VName → Nat) (F : VName → Prop) : ∀ e, SoundD δ F e → claimD δ e
   | .infix a op l r, h => by unfold SoundD at h; exact h.1
   | .prefix a op e, h => by unfold SoundD at h; exact h.1
   | .switch a c t f, h => by unfold SoundD at h; exact h.1
@@ -277,22 +277,22 @@ theorem degEs_le (δ : VName → Nat) (b : Nat) : ∀ es : Exprs, (∀ e, e ∈ 
     have h2 := degEs_le δ b r (fun x hx => h x (by simp [Exprs.toList, hx]))
     omega
 
-theorem soundDs_mem (δ : VName → Nat) : ∀ es : Exprs, SoundDs δ es → ∀ e, e ∈ es.toList → SoundD δ e
+theorem soundDs_mem (δ : VName → Nat) (F : VName → Prop) : ∀ es : Exprs, SoundDs δ F es → ∀ e, e ∈ es.toList → SoundD δ F e
   | .nil, _, e, he => by simp [Exprs.toList] at he
   | .cons x r, h, e, he => by
     unfold SoundDs at h
     simp only [Exprs.toList, List.mem_cons] at he
     rcases he with he | he
     · subst he; exact h.1
-    · exact soundDs_mem δ r h.2 e he
+    · exact soundDs_mem δ F r h.2 e he
 
-theorem constIdx_true (δ : VName → Nat) : ∀ acc : Accs, SoundDa δ acc → constIdx acc = some true → degAs δ acc = 0
+theorem constIdx_true (δ : VName → Nat) (F : VName → Prop) : ∀ acc : Accs, SoundDa δ F acc → constIdx acc = some true → degAs δ acc = 0
   | .nil, _, _ => by unfold degAs; rfl
   | .cons (.cmp n) r, h, hc => by
     unfold SoundDa at h
     unfold constIdx at hc
     unfold degAs
-    exact constIdx_true δ r h hc
+    exact constIdx_true δ F r h hc
   | .cons (.idx e) r, h, hc => by
     unfold SoundDa at h
     unfold constIdx at hc
@@ -307,8 +307,8 @@ theorem constIdx_true (δ : VName → Nat) : ∀ acc : Accs, SoundDa δ acc → 
         simp only [Option.map_some, Option.some.injEq, Bool.and_eq_true, decide_eq_true_eq] at hc
         have hb : b = true := hc.2
         subst hb
-        have h1 := (soundD_top δ e h.1) rr hr
-        have h2 := constIdx_true δ r h.2 hrest
+        have h1 := (soundD_top δ F e h.1) rr hr
+        have h2 := constIdx_true δ F r h.2 hrest
         omega
 
 open Circomspect Ir Algebra
@@ -335,13 +335,13 @@ theorem claim_step (_δ : VName → Nat) (a : Ann) (c : Bool) (x : Option Range)
   · rw [h] at hr; cases hr; exact hnew _ hv
 
 mutual
-theorem degExpr_sound (δ : VName → Nat) (env : DegEnv) (hag : AgreeD δ env) :
-    ∀ e, SoundD δ e → SoundD δ (degExpr env e).1
+theorem degExpr_sound (δ : VName → Nat) (F : VName → Prop) (env : DegEnv) (hag : AgreeD δ env F) :
+    ∀ e, SoundD δ F e → SoundD δ F (degExpr env e).1
   | .infix a op l r, h => by
     unfold SoundD at h
     obtain ⟨hc, hl, hr⟩ := h
-    have il := degExpr_sound δ env hag l hl
-    have ir := degExpr_sound δ env hag r hr
+    have il := degExpr_sound δ F env hag l hl
+    have ir := degExpr_sound δ F env hag r hr
     have el := degE_degExpr δ env l
     have er := degE_degExpr δ env r
     unfold degExpr
@@ -359,8 +359,8 @@ theorem degExpr_sound (δ : VName → Nat) (env : DegEnv) (hag : AgreeD δ env) 
       split at hv
       · rename_i x y hx hy
         cases hv
-        have h1 := soundD_top δ _ il x hx
-        have h2 := soundD_top δ _ hr y hy
+        have h1 := soundD_top δ F _ il x hx
+        have h2 := soundD_top δ F _ hr y hy
         rw [el] at h1
         exact ⟨C07ops.C07_range op x y _ _ h1.1 h2.1 h1.2 h2.2, C07ops.degOp_le3 op _ _ h1.2 h2.2⟩
       · cases hv
@@ -375,15 +375,15 @@ theorem degExpr_sound (δ : VName → Nat) (env : DegEnv) (hag : AgreeD δ env) 
       split at hv
       · rename_i x y hx hy
         cases hv
-        have h1 := soundD_top δ _ il x hx
-        have h2 := soundD_top δ _ ir y hy
+        have h1 := soundD_top δ F _ il x hx
+        have h2 := soundD_top δ F _ ir y hy
         rw [el] at h1; rw [er] at h2
         exact ⟨C07ops.C07_range op x y _ _ h1.1 h2.1 h1.2 h2.2, C07ops.degOp_le3 op _ _ h1.2 h2.2⟩
       · cases hv
   | .prefix a op e, h => by
     unfold SoundD at h
     obtain ⟨hc, he⟩ := h
-    have ie := degExpr_sound δ env hag e he
+    have ie := degExpr_sound δ F env hag e he
     have ee := degE_degExpr δ env e
     unfold degExpr
     simp only
@@ -399,7 +399,7 @@ theorem degExpr_sound (δ : VName → Nat) (env : DegEnv) (hag : AgreeD δ env) 
       rw [hx] at hv
       simp only [Option.map_some, Option.some.injEq] at hv
       subst hv
-      have h1 := soundD_top δ _ ie x hx
+      have h1 := soundD_top δ F _ ie x hx
       rw [ee] at h1
       constructor
       · have : algPrefix op (degE δ e) ≤ algPrefix op x.2 := by
@@ -416,22 +416,22 @@ theorem degExpr_sound (δ : VName → Nat) (env : DegEnv) (hag : AgreeD δ env) 
   | .switch a c t f, h => by
     unfold SoundD at h
     obtain ⟨hcl, hc, ht, hf⟩ := h
-    have ic := degExpr_sound δ env hag c hc
-    have it := degExpr_sound δ env hag t ht
-    have iff' := degExpr_sound δ env hag f hf
+    have ic := degExpr_sound δ F env hag c hc
+    have it := degExpr_sound δ F env hag t ht
+    have iff' := degExpr_sound δ F env hag f hf
     have ec := degE_degExpr δ env c
     have et := degE_degExpr δ env t
     have ef := degE_degExpr δ env f
     -- whatever was (or was not) re-visited, the children are sound and evaluate as before
-    have key : ∀ (c' t' f' : Expr) (k : Bool), SoundD δ c' → SoundD δ t' → SoundD δ f' →
+    have key : ∀ (c' t' f' : Expr) (k : Bool), SoundD δ F c' → SoundD δ F t' → SoundD δ F f' →
         degE δ c' = degE δ c → degE δ t' = degE δ t → degE δ f' = degE δ f →
-        SoundD δ (match c'.ann.deg with
+        SoundD δ F (match c'.ann.deg with
           | none => (Expr.switch a c' t' f', k)
           | some cr => if cr.2 = 0 then
               (match orSetDeg a k (iterOpt [t'.ann.deg, f'.ann.deg]) with | (a', k') => (Expr.switch a' c' t' f', k'))
             else (Expr.switch a c' t' f', k)).1 := by
       intro c' t' f' k sc st sf e1 e2 e3
-      have keep : SoundD δ (Expr.switch a c' t' f') := by
+      have keep : SoundD δ F (Expr.switch a c' t' f') := by
         unfold SoundD
         refine ⟨?_, sc, st, sf⟩
         intro r hr'
@@ -449,15 +449,15 @@ theorem degExpr_sound (δ : VName → Nat) (env : DegEnv) (hag : AgreeD δ env) 
           simp only [dann_switch, degE, e1, e2, e3]
           apply claim_step δ a _ _ _ (fun r hr' => by simpa [degE] using hcl r hr')
           intro v hv
-          have hcz := (soundD_top δ c' sc cr hcr).1
+          have hcz := (soundD_top δ F c' sc cr hcr).1
           rw [e1] at hcz
           have hc0 : degE δ c = 0 := by omega
           rw [if_pos hc0]
           obtain ⟨hmem, hb⟩ := iterOpt_spec _ v hv
           obtain ⟨xt, hxt, hxt2⟩ := hmem t'.ann.deg (by simp)
           obtain ⟨xf, hxf, hxf2⟩ := hmem f'.ann.deg (by simp)
-          have h1 := soundD_top δ t' st xt hxt
-          have h2 := soundD_top δ f' sf xf hxf
+          have h1 := soundD_top δ F t' st xt hxt
+          have h2 := soundD_top δ F f' sf xf hxf
           rw [e2] at h1; rw [e3] at h2
           refine ⟨by omega, hb ?_⟩
           intro o x ho hox
@@ -492,7 +492,7 @@ theorem degExpr_sound (δ : VName → Nat) (env : DegEnv) (hag : AgreeD δ env) 
   | .call a n args, h => by
     unfold SoundD at h
     obtain ⟨hc, hargs⟩ := h
-    have ia := degExprs_sound δ env hag args false hargs
+    have ia := degExprs_sound δ F env hag args false hargs
     have ea := degEs_degExprs δ env args false
     unfold degExpr
     simp only
@@ -514,7 +514,7 @@ theorem degExpr_sound (δ : VName → Nat) (env : DegEnv) (hag : AgreeD δ env) 
         | some r =>
           rw [hd] at this
           have hz : r.2 = 0 := by simpa using this
-          have := (soundD_top δ e (soundDs_mem δ _ ia e he) r hd).1
+          have := (soundD_top δ F e (soundDs_mem δ F _ ia e he) r hd).1
           omega
       rw [ea] at this
       have h0 : degEs δ args = 0 := by omega
@@ -528,7 +528,7 @@ theorem degExpr_sound (δ : VName → Nat) (env : DegEnv) (hag : AgreeD δ env) 
   | .arr a vals, h => by
     unfold SoundD at h
     obtain ⟨hc, hv⟩ := h
-    have iv := degExprs_sound δ env hag vals false hv
+    have iv := degExprs_sound δ F env hag vals false hv
     have ev := degEs_degExprs δ env vals false
     unfold degExpr
     simp only
@@ -544,17 +544,17 @@ theorem degExpr_sound (δ : VName → Nat) (env : DegEnv) (hag : AgreeD δ env) 
       apply degEs_le
       intro e he
       obtain ⟨x, hx, hx2⟩ := hmem e.ann.deg (List.mem_map.mpr ⟨e, he, rfl⟩)
-      have := (soundD_top δ e (soundDs_mem δ _ iv e he) x hx).1
+      have := (soundD_top δ F e (soundDs_mem δ F _ iv e he) x hx).1
       omega
     · apply hb
       intro o x ho hox
       obtain ⟨e, he, heo⟩ := List.mem_map.mp ho
       subst heo
-      exact (soundD_top δ e (soundDs_mem δ _ iv e he) x hox).2
+      exact (soundD_top δ F e (soundDs_mem δ F _ iv e he) x hox).2
   | .acc a v access, h => by
     unfold SoundD at h
     obtain ⟨hc, ha⟩ := h
-    have ia := degAccs_sound δ env hag access false ha
+    have ia := degAccs_sound δ F env hag access false ha
     have ea := degAs_degAccs δ env access false
     unfold degExpr
     simp only
@@ -566,7 +566,7 @@ theorem degExpr_sound (δ : VName → Nat) (env : DegEnv) (hag : AgreeD δ env) 
     intro R hR
     split at hR
     · rename_i hci
-      have hz := constIdx_true δ _ ia hci
+      have hz := constIdx_true δ F _ ia hci
       rw [ea] at hz
       rw [if_pos hz]
       exact hag.bound v R hR
@@ -578,22 +578,22 @@ theorem degExpr_sound (δ : VName → Nat) (env : DegEnv) (hag : AgreeD δ env) 
     · cases hR
   | .upd a v access rhe, h => by
     unfold SoundD at h
-    obtain ⟨hc, ha, hr⟩ := h
-    have ir := degExpr_sound δ env hag rhe hr
+    obtain ⟨hc, ha, hr, hF⟩ := h
+    have ir := degExpr_sound δ F env hag rhe hr
     have er := degE_degExpr δ env rhe
-    have ia := degAccs_sound δ env hag access (degExpr env rhe).2 ha
+    have ia := degAccs_sound δ F env hag access (degExpr env rhe).2 ha
     have ea := degAs_degAccs δ env access (degExpr env rhe).2
     unfold degExpr
     simp only
     unfold SoundD
-    refine ⟨?_, ia, ir⟩
+    refine ⟨?_, ia, ir, hF⟩
     unfold claimD
     simp only [dann_upd, degE, ea, er]
     apply claim_step δ a _ _ _ (fun r hr' => by simpa [degE] using hc r hr')
     intro R hR
     split at hR
     · rename_i hci
-      have hz := constIdx_true δ _ ia hci
+      have hz := constIdx_true δ F _ ia hci
       rw [ea] at hz
       rw [if_pos hz]
       split at hR
@@ -601,8 +601,8 @@ theorem degExpr_sound (δ : VName → Nat) (env : DegEnv) (hag : AgreeD δ env) 
         split at hR
         · cases hR
         · rename_i hna
-          have hd0 := hag.fresh v hnone (by simpa using hna)
-          have := soundD_top δ _ ir R hR
+          have hd0 := hag.fresh v hF hnone (by simpa using hna)
+          have := soundD_top δ F _ ir R hR
           rw [er] at this
           rw [hd0]
           exact ⟨by omega, this.2⟩
@@ -612,7 +612,7 @@ theorem degExpr_sound (δ : VName → Nat) (env : DegEnv) (hag : AgreeD δ env) 
         cases hx1
         obtain ⟨x2, hx2, hx22⟩ := hmem (degExpr env rhe).1.ann.deg (by simp)
         have h1 := hag.bound v vr hvr
-        have h2 := soundD_top δ _ ir x2 hx2
+        have h2 := soundD_top δ F _ ir x2 hx2
         rw [er] at h2
         refine ⟨by omega, hb ?_⟩
         intro o x ho hox
@@ -650,8 +650,8 @@ theorem degExpr_sound (δ : VName → Nat) (env : DegEnv) (hag : AgreeD δ env) 
       obtain ⟨v, _, hvo⟩ := List.mem_map.mp ho
       subst hvo
       exact (hag.bound v x hox).2
-theorem degExprs_sound (δ : VName → Nat) (env : DegEnv) (hag : AgreeD δ env) :
-    ∀ (es : Exprs) (c : Bool), SoundDs δ es → SoundDs δ (degExprs env es c).1
+theorem degExprs_sound (δ : VName → Nat) (F : VName → Prop) (env : DegEnv) (hag : AgreeD δ env F) :
+    ∀ (es : Exprs) (c : Bool), SoundDs δ F es → SoundDs δ F (degExprs env es c).1
   | .nil, c, _ => by unfold degExprs; unfold SoundDs; trivial
   | .cons e r, c, h => by
     unfold SoundDs at h
@@ -661,13 +661,13 @@ theorem degExprs_sound (δ : VName → Nat) (env : DegEnv) (hag : AgreeD δ env)
     | true =>
       simp only [if_true]
       unfold SoundDs
-      exact ⟨h.1, degExprs_sound δ env hag r _ h.2⟩
+      exact ⟨h.1, degExprs_sound δ F env hag r _ h.2⟩
     | false =>
       simp only [Bool.false_eq_true, if_false]
       unfold SoundDs
-      exact ⟨degExpr_sound δ env hag e h.1, degExprs_sound δ env hag r _ h.2⟩
-theorem degAccs_sound (δ : VName → Nat) (env : DegEnv) (hag : AgreeD δ env) :
-    ∀ (acc : Accs) (c : Bool), SoundDa δ acc → SoundDa δ (degAccs env acc c).1
+      exact ⟨degExpr_sound δ F env hag e h.1, degExprs_sound δ F env hag r _ h.2⟩
+theorem degAccs_sound (δ : VName → Nat) (F : VName → Prop) (env : DegEnv) (hag : AgreeD δ env F) :
+    ∀ (acc : Accs) (c : Bool), SoundDa δ F acc → SoundDa δ F (degAccs env acc c).1
   | .nil, c, _ => by unfold degAccs; unfold SoundDa; trivial
   | .cons (.idx e) r, c, h => by
     unfold SoundDa at h
@@ -677,17 +677,17 @@ theorem degAccs_sound (δ : VName → Nat) (env : DegEnv) (hag : AgreeD δ env) 
     | true =>
       simp only [if_true]
       unfold SoundDa
-      exact ⟨h.1, degAccs_sound δ env hag r _ h.2⟩
+      exact ⟨h.1, degAccs_sound δ F env hag r _ h.2⟩
     | false =>
       simp only [Bool.false_eq_true, if_false]
       unfold SoundDa
-      exact ⟨degExpr_sound δ env hag e h.1, degAccs_sound δ env hag r _ h.2⟩
+      exact ⟨degExpr_sound δ F env hag e h.1, degAccs_sound δ F env hag r _ h.2⟩
   | .cons (.cmp n) r, c, h => by
     unfold SoundDa at h
     unfold degAccs
     simp only
     unfold SoundDa
-    exact degAccs_sound δ env hag r _ h
+    exact degAccs_sound δ F env hag r _ h
 end
 
 end Circomspect.Propagate
